@@ -466,6 +466,17 @@ def check_stop_invariant(prog: Program, res: Result) -> None:
 
     COUNT_ATTR = ("shape", "size")
 
+    def is_classes(e, seen=()) -> bool:
+        """e is the collection of DISTINCT colours (np.unique / set of a
+        colour array): only its length is invariant."""
+        if isinstance(e, ast.Call) and call_name(e) in (
+                "np.unique", "numpy.unique", "set", "frozenset") and \
+                len(e.args) >= 1 and not e.keywords:
+            return True
+        if isinstance(e, ast.Name) and e.id not in seen and defs.get(e.id):
+            return all(is_classes(d, seen + (e.id,)) for d in defs[e.id])
+        return False
+
     def raw_colour_uses(e, seen=()) -> list[str]:
         """Sub-expressions through which colour VALUES (not just the number
         of distinct colours / of atoms) reach e."""
@@ -476,18 +487,11 @@ def check_stop_invariant(prog: Program, res: Result) -> None:
         if isinstance(e, ast.Call) and call_name(e) == "len" and \
                 len(e.args) == 1:
             a0 = e.args[0]
-            if is_colours(a0):
-                return []
-            if isinstance(a0, ast.Call) and call_name(a0) in (
-                    "np.unique", "numpy.unique", "set", "frozenset") and \
-                    len(a0.args) >= 1 and not a0.keywords:
+            if is_colours(a0) or is_classes(a0):
                 return []
         if isinstance(e, ast.Attribute) and e.attr in COUNT_ATTR:
             v = e.value
-            if is_colours(v):
-                return []
-            if isinstance(v, ast.Call) and call_name(v) in (
-                    "np.unique", "numpy.unique") and not v.keywords:
+            if is_colours(v) or is_classes(v):
                 return []
         if is_colours(e):
             return [norm(e, 60)]
